@@ -28,16 +28,23 @@ def end():
     _cache = None
 
 
-def run(acc, items, eval_fn, upto=None, sample=None):
+def run(acc, items, eval_fn, upto=None, sample=None, between=None):
     """items: list of argument tuples; eval_fn(item) -> (list of (signature, detail), outcome).
-    Every step is first evaluated with FRESH objects (the ordinary oracle); only steps that pass that way are judged in
-    the reuse run, so a violation reported here is caused by the earlier steps."""
+    A step that also fails with FRESH objects is not attributed to reuse (it is reported by the ordinary enumeration),
+    so a violation reported here is caused by the earlier steps.
+    between: optional callable run before every third step inside the reuse context (e.g. the shared reader is given a
+    document it rejects); whatever it raises is ignored - only its effect on the shared objects matters."""
     begin()
     out = []
     try:
         for i, item in enumerate(items):
             if upto is not None and i > upto:
                 break
+            if between is not None and i % 3 == 2:
+                try:
+                    between()
+                except Exception:  # noqa
+                    pass
             v, outcome = eval_fn(item)
             if acc is not None:
                 acc.case(("reuse", i), True, outcome, sample(item) if sample and i < 2 else None)
@@ -64,6 +71,6 @@ def run(acc, items, eval_fn, upto=None, sample=None):
     return out
 
 
-def replay(items, eval_fn, index):
-    got = run(None, items, eval_fn, upto=index)
+def replay(items, eval_fn, index, between=None):
+    got = run(None, items, eval_fn, upto=index, between=between)
     return [{"sig": s, "detail": d} for s, c, d in got if c["index"] == index]
